@@ -5,6 +5,7 @@ C06 for the two improvement-environment checkers (`TSPkoptEnv.check_solution_val
 -/
 import Rl4co.Proofs.ImproveOracle
 import Rl4co.Proofs.ImprovePdpOracle
+import Rl4co.Props.C09.ImproveCode
 
 namespace Rl4co.Improve.Check
 open Rl4co.Spec.Improve
@@ -139,5 +140,250 @@ example : checkKopt 5 (fun j => [1, 3, 4, 2, 0].getD j 0) = true ∧
     checkPdp 5 (fun j => [1, 3, 4, 2, 0].getD j 0) = true := by
   simp only [checkPdp, checkKopt, Bool.and_eq_true]
   exact ⟨(sortedIsRange_iff 5 _).mpr (by decide), ⟨(sortedIsRange_iff 5 _).mpr (by decide), by decide⟩, by decide⟩
+
+end Rl4co.Improve.Check
+
+namespace Rl4co.Improve.Check
+open Rl4co.Spec.Improve
+
+/-! ### exact characterisation of what the two checkers accept -/
+
+/-- **C06 (k-opt TSP checker, exact).** accepted ⟺ the successor array is a permutation of `0..n-1` -/
+theorem kopt_accepts_iff (r : Rec) (n : Nat) :
+    checkKopt n r = true ↔ ((List.range n).map r).Perm (List.range n) :=
+  sortedIsRange_iff n _
+
+theorem walk_append (r : Rec) : ∀ (a b x : Nat),
+    walk r (a + b) x = walk r a x ++ walk r b ((x :: walk r a x).getLastD x) := by
+  intro a
+  induction a with
+  | zero => intro b x; simp [walk]
+  | succ a ih =>
+    intro b x
+    have : a + 1 + b = (a + b) + 1 := by omega
+    rw [this]
+    simp only [walk, List.cons_append]
+    rw [ih b (r x)]
+    simp only [List.getLastD_eq_getLast?, List.getLast?_cons_cons]
+    cases hh : (r x :: walk r a (r x)).getLast? with
+    | none => simp at hh
+    | some v => rfl
+
+theorem walk_lt (r : Rec) (n : Nat) (hr : ∀ j, j < n → r j < n) : ∀ (k x : Nat), x < n → ∀ y ∈ walk r k x, y < n := by
+  intro k
+  induction k with
+  | zero => intro x _ y hy; simp [walk] at hy
+  | succ k ih =>
+    intro x hx y hy
+    simp only [walk, List.mem_cons] at hy
+    rcases hy with rfl | hy
+    · exact hr x hx
+    · exact ih (r x) (hr x hx) y hy
+
+/-- **single cycle = permutation + connected**: `rec` is a tour iff it is a permutation array and the walk of
+`n` steps from node 0 meets every node. -/
+theorem isTour_iff_perm_connected (r : Rec) (n : Nat) (hn : 0 < n) :
+    IsTour r n ↔ ((List.range n).map r).Perm (List.range n) ∧ ∀ j, j < n → j ∈ walk r n 0 := by
+  constructor
+  · intro h
+    refine ⟨map_perm_of_isTour r n h, ?_⟩
+    obtain ⟨rest, hperm, hcyc⟩ := isTour_from r n h 0 hn
+    have hlen : (0 :: rest).length = n := hperm.length_eq.trans List.length_range
+    rw [cycleOf_cons] at hcyc
+    have hw := walk_of_linked r (rest ++ [0]) 0 (by simpa using hcyc)
+    have hl : (rest ++ [0]).length = n := by simpa using hlen
+    rw [hl] at hw
+    intro j hj
+    rw [hw]
+    have : j ∈ 0 :: rest := hperm.mem_iff.mpr (List.mem_range.mpr hj)
+    simp only [List.mem_cons, List.mem_append, List.not_mem_nil, or_false] at this ⊢
+    exact this.symm
+  · rintro ⟨hp, hconn⟩
+    apply isTour_of_isTourB
+    have hr : ∀ j, j < n → r j < n := by
+      intro j hj
+      have : r j ∈ (List.range n).map r := List.mem_map.mpr ⟨j, List.mem_range.mpr hj, rfl⟩
+      exact List.mem_range.mp (hp.mem_iff.mp this)
+    have hwl := walk_length r n 0
+    have hwlt := walk_lt r n hr n 0 hn
+    -- the walk has n entries and contains 0..n-1: it is a permutation of them
+    have hsub : List.range n ⊆ walk r n 0 := fun j hj => hconn j (List.mem_range.mp hj)
+    have hperm : (List.range n).Perm (walk r n 0) :=
+      (List.subperm_of_subset List.nodup_range hsub).perm_of_length_le (by simp [hwl])
+    have hnd : (walk r n 0).Nodup := hperm.nodup_iff.mp List.nodup_range
+    simp only [isTourB, Bool.and_eq_true, decide_eq_true_eq, List.all_eq_true, Bool.or_eq_true, beq_iff_eq]
+    refine ⟨⟨hnd, hwlt⟩, Or.inr ?_⟩
+    -- 0 occurs, and it must be the last entry
+    obtain ⟨A, B, hAB⟩ := List.append_of_mem (hconn 0 hn)
+    have hlenAB : A.length + 1 + B.length = n := by
+      have := congrArg List.length hAB; simp [hwl] at this; omega
+    have hsplit := walk_append r (A.length + 1) B.length 0
+    rw [hlenAB, hAB] at hsplit
+    have e : A ++ 0 :: B = (A ++ [0]) ++ B := by simp
+    rw [e] at hsplit
+    have hinj := List.append_inj hsplit (by simp [walk_length])
+    have hlast : ((0 : Nat) :: walk r (A.length + 1) 0).getLastD 0 = 0 := by
+      rw [← hinj.1, List.getLastD_eq_getLast?]
+      have : (0 :: (A ++ [0])) = (0 :: A) ++ [0] := by simp
+      rw [this, List.getLast?_append]; simp
+    rw [hlast] at hinj
+    cases B with
+    | nil => rw [hAB]; simp
+    | cons b B' =>
+      exfalso
+      have hb : b = r 0 := by
+        have := hinj.2; simp only [List.length_cons, walk, List.cons.injEq] at this; exact this.1
+      -- the first entry of the walk is r 0 as well
+      have hhead : ∃ t, walk r n 0 = r 0 :: t := by
+        cases n with
+        | zero => omega
+        | succ m => exact ⟨_, rfl⟩
+      obtain ⟨t, ht⟩ := hhead
+      rw [hAB] at ht hnd
+      cases A with
+      | nil =>
+        simp only [List.nil_append, List.cons.injEq] at ht
+        rw [← ht.1] at hb
+        rw [hb] at hnd
+        simp at hnd
+      | cons a A' =>
+        simp only [List.cons_append, List.cons.injEq] at ht
+        rw [ht.1, hb] at hnd
+        simp at hnd
+
+/-- **C06 (k-opt TSP checker): soundness up to the sub-tour defect.**  A successor array is a valid tour iff
+the checker accepts it AND the walk from node 0 meets every node — the checker tests exactly the first half. -/
+theorem kopt_valid_iff (r : Rec) (n : Nat) (hn : 0 < n) :
+    IsTour r n ↔ checkKopt n r = true ∧ ∀ j, j < n → j ∈ walk r n 0 := by
+  rw [isTour_iff_perm_connected r n hn, kopt_accepts_iff]
+
+/-- position (1-based) of the LAST occurrence of `x` in `w`, 0 when it does not occur -/
+def lastHit (w : List Nat) (x : Nat) : Nat := if x ∈ w then w.length - w.reverse.idxOf x else 0
+
+theorem lastHit_decomp (A : List Nat) (x : Nat) (B : List Nat) (hx : x ∉ B) :
+    lastHit (A ++ x :: B) x = A.length + 1 := by
+  have hmem : x ∈ A ++ x :: B := by simp
+  simp only [lastHit, hmem, if_true, List.reverse_append, List.reverse_cons, List.append_assoc]
+  have : B.reverse ++ ([x] ++ A.reverse) = B.reverse ++ x :: A.reverse := by simp
+  rw [this, idxOf_decomp B.reverse x _ (by simpa using hx)]
+  simp; omega
+
+/-- the `visited_time` walk on ANY successor array (no validity assumed): a node keeps the stamp of the LAST
+time the walk meets it -/
+theorem vtLoop_general (r : Rec) : ∀ (W : List Nat) (pre i : Nat) (vt : Nat → Nat), Linked r (pre :: W) →
+    ∀ x, (x ∉ W ∧ vtLoop r W.length i pre vt x = vt x) ∨
+      (∃ A B, W = A ++ x :: B ∧ x ∉ B ∧ vtLoop r W.length i pre vt x = i + A.length + 1) := by
+  intro W
+  induction W with
+  | nil => intro pre i vt _ x; exact Or.inl ⟨by simp, rfl⟩
+  | cons w W ih =>
+    intro pre i vt hl x
+    rw [linked_cons_cons] at hl
+    have hstep : vtLoop r (w :: W).length i pre vt = vtLoop r W.length (i + 1) w (upd vt w (i + 1)) := by
+      simp only [List.length_cons, vtLoop, hl.1]
+    rw [hstep]
+    rcases ih w (i + 1) (upd vt w (i + 1)) hl.2 x with ⟨hx, hv⟩ | ⟨A, B, hW, hxB, hv⟩
+    · by_cases hxw : x = w
+      · subst hxw
+        right
+        exact ⟨[], W, rfl, hx, by rw [hv]; simp [upd]⟩
+      · left
+        exact ⟨by simp [hxw, hx], by rw [hv]; simp [upd, hxw]⟩
+    · right
+      exact ⟨w :: A, B, by rw [hW]; rfl, hxB, by rw [hv]; simp; omega⟩
+
+theorem visitedTime_eq_lastHit (r : Rec) (n : Nat) (x : Nat) :
+    visitedTime n r x = lastHit (walk r n 0) x := by
+  have hl := walk_linked r n 0
+  have hlen := walk_length r n 0
+  have := vtLoop_general r (walk r n 0) 0 0 (fun _ => 0) hl x
+  rw [hlen] at this
+  unfold visitedTime
+  rcases this with ⟨hx, hv⟩ | ⟨A, B, hW, hxB, hv⟩
+  · rw [hv]; simp [lastHit, hx]
+  · rw [hv, hW, lastHit_decomp A x B hxB]; omega
+
+/-- **C06 (PDP ruin-repair checker, exact).**  On `gs = 2h+1` nodes the checker accepts exactly the
+permutation arrays in which, along the `gs`-step walk from the depot, the last visit of every delivery comes
+after the last visit of its pickup — a pickup that is NEVER visited counts as "before" (stamp 0), which is the
+sub-tour defect; a delivery that is never visited is rejected. -/
+theorem pdp_accepts_iff (r : Rec) (gs : Nat) (hodd : gs % 2 = 1) :
+    checkPdp gs r = true ↔ ((List.range gs).map r).Perm (List.range gs) ∧
+      ∀ i, 1 ≤ i → i ≤ gs / 2 → lastHit (walk r gs 0) i < lastHit (walk r gs 0) (i + gs / 2) := by
+  simp only [checkPdp, Bool.and_eq_true, decide_eq_true_eq, List.all_eq_true, List.mem_range,
+    visitedTime_eq_lastHit]
+  rw [kopt_accepts_iff]
+  constructor
+  · rintro ⟨⟨hp, _⟩, hk⟩
+    refine ⟨hp, fun i h1 h2 => ?_⟩
+    have := hk (i - 1) (by omega)
+    have e : i - 1 + 1 = i := by omega
+    rwa [e] at this
+  · rintro ⟨hp, hi⟩
+    exact ⟨⟨hp, by omega⟩, fun k hk => hi (k + 1) (by omega) (by omega)⟩
+
+/-- **C06 (PDP checker): soundness up to the sub-tour defect.**  A successor array on `2h+1` nodes is a valid
+PDP tour iff the checker accepts it AND the walk from the depot meets every node. -/
+theorem pdp_valid_iff (r : Rec) (gs : Nat) (hodd : gs % 2 = 1) :
+    PdpValid r gs ↔ checkPdp gs r = true ∧ ∀ j, j < gs → j ∈ walk r gs 0 := by
+  have hgs : 0 < gs := by omega
+  constructor
+  · intro h
+    have ht : IsTour r gs := by obtain ⟨rest, hp, hc, _⟩ := h; exact ⟨_, hp, hc⟩
+    exact ⟨pdp_complete r gs hodd h, ((isTour_iff_perm_connected r gs hgs).mp ht).2⟩
+  · rintro ⟨hc, hconn⟩
+    have hk : checkKopt gs r = true := by
+      simp only [checkPdp, Bool.and_eq_true] at hc; exact hc.1.1
+    exact pdp_sound_partial r gs hodd hc ((kopt_valid_iff r gs hgs).mpr ⟨hk, hconn⟩)
+
+/-! ### translator tie for the checkers -/
+
+theorem zipWith_eq_all : ∀ (l1 l2 : List Nat), l1.length = l2.length →
+    ((List.zipWith (fun a b => Cmp.evalNat .eq a b) l1 l2).all id = true ↔ l2 = l1) := by
+  intro l1
+  induction l1 with
+  | nil => intro l2 h; cases l2 <;> simp_all
+  | cons a l1 ih =>
+    intro l2 h
+    cases l2 with
+    | nil => simp at h
+    | cons b l2 =>
+      have := ih l2 (by simpa using h)
+      simp only [List.zipWith_cons_cons, List.all_cons, Bool.and_eq_true, id, Cmp.evalNat,
+        decide_eq_true_eq, List.cons.injEq]
+      simp only [Cmp.evalNat] at this
+      constructor
+      · rintro ⟨h1, h2⟩; exact ⟨h1.symm, this.mp h2⟩
+      · rintro ⟨h1, h2⟩; exact ⟨h1.symm, this.mpr h2⟩
+
+theorem checkKoptC_eq (n : Nat) (r : Rec) : checkKoptC .eq n r = checkKopt n r := by
+  have hlen : (List.range n).length = (sortNat ((List.range n).map r)).length := by
+    rw [(sortNat_perm _).length_eq]; simp
+  have h := zipWith_eq_all (List.range n) (sortNat ((List.range n).map r)) hlen
+  simp only [checkKoptC, checkKopt, sortedIsRange]
+  rw [Bool.eq_iff_iff, h]; simp
+
+/-- obligations: `arange == sort(rec_best)` in both checkers, `visited_time[pickups] < visited_time[deliveries]`,
+stamps `i + 1` over `range(graph_size)` -/
+theorem checkParams_ok : Params.improveKoptCheckCmp = .eq ∧ Params.improvePdpCheckCmp = .eq ∧
+    Params.improvePdpCheckPrecCmp = .lt ∧ Params.improvePdpCheckVt = (1, 0) := by decide
+
+/-- **tie.** the executed checker models (tokens from the current source) are the ones of the C06 theorems -/
+theorem code_checkKopt_eq : Code.checkKopt = checkKopt := by
+  funext n r; unfold Code.checkKopt; rw [checkParams_ok.1]; exact checkKoptC_eq n r
+
+theorem code_checkPdp_eq : Code.checkPdp = checkPdp := by
+  funext gs r
+  unfold Code.checkPdp
+  rw [checkParams_ok.2.1, checkParams_ok.2.2.1, checkParams_ok.2.2.2]
+  simp only [checkPdpC, checkPdp, checkKoptC_eq, Code.visitedTimeC_std, Cmp.evalNat]
+
+/-- Non-vacuity of the characterisations: the accepted non-tour `[1,0,3,2]` is a permutation whose walk from 0
+misses node 2; on the accepted PDP non-tour `[3,2,1,4,0]` the pickups are never hit. -/
+example :
+    let r : Rec := fun j => [1, 0, 3, 2].getD j 0
+    ((List.range 4).map r).Perm (List.range 4) ∧ 2 ∉ walk r 4 0 ∧
+    lastHit (walk (fun j => [3, 2, 1, 4, 0].getD j 0) 5 0) 1 = 0 ∧
+    lastHit (walk (fun j => [3, 2, 1, 4, 0].getD j 0) 5 0) 3 = 4 := by decide
 
 end Rl4co.Improve.Check
